@@ -7,7 +7,11 @@ func (nodes ChildNodes) Individuals() (individuals IndividualNodes) {
 		pointer := valueToPointer(child.Value())
 		individual := nodes[0].Family().Document().NodeByPointer(pointer)
 
-		individuals = append(individuals, individual.(*IndividualNode))
+		// The pointer may not exist, or it may refer to something that is not
+		// an individual.
+		if individual, ok := individual.(*IndividualNode); ok {
+			individuals = append(individuals, individual)
+		}
 	}
 
 	return
